@@ -269,8 +269,85 @@ func refStraddleUnit(r refCfg) harness.Unit {
 	}}
 }
 
+// refTicketHelloUnit: state carried from an earlier connection. The reference client first obtains
+// a session ticket from the server in an honest handshake, then comes back with that (valid) ticket
+// in ClientHellos that no server may accept: suite lists without any suite the server supports,
+// an empty list, a compression list without "null". Resumption logic runs before suite selection,
+// so what it leaves behind must not let such a hello through. A hello that offers the ticket with
+// the server's other suite is the conformant control (full handshake or resumption, must complete).
+func refTicketHelloUnit(suite uint16) harness.Unit {
+	return harness.Unit{Name: fmt.Sprintf("scripted-peer-ticket-then-hello/%04x", suite), Run: func(c *harness.Ctx) {
+		p := tlsk.Get()
+		mkServer := func() *gmtls.Config {
+			sc := &gmtls.Config{GMSupport: &gmtls.GMSupport{}, Certificates: []gmtls.Certificate{p.Sign, p.Enc}, Time: tlsk.FixedTime, Rand: wire.NewRand(91),
+				CipherSuites: []uint16{gmtls.GMTLS_ECC_SM4_CBC_SM3, gmtls.GMTLS_ECC_SM4_GCM_SM3}}
+			sc.SetSessionTicketKeys([][32]byte{{9, 9, 9}})
+			return sc
+		}
+		other := uint16(gmref.SuiteCBC)
+		if suite == gmref.SuiteCBC {
+			other = gmref.SuiteGCM
+		}
+		type hello struct {
+			name       string
+			suites     []uint16
+			conformant bool
+		}
+		hellos := []hello{
+			{"the ticket's suite (control)", []uint16{suite}, true},
+			{"only the server's other suite (control)", []uint16{other}, true},
+			{"only unknown suites", []uint16{0x0a0a, 0x1a1a, 0xfafa}, false},
+			{"only the unimplemented ECDHE-SM2 suites", []uint16{0xe011, 0xe051}, false},
+			{"only standard TLS suites", []uint16{0xc02b, 0xc02f, 0x009c}, false},
+			{"an empty suite list", []uint16{}, false},
+		}
+		for _, withTicket := range []bool{true, false} {
+			for _, h := range hellos {
+				sc := mkServer()
+				// connection 1: honest, obtains a ticket
+				var first *gmref.Peer
+				o1 := tlsk.RunLibVsRef(sc, false, tlsk.LibApp(false), gmref.Identity{}, 92, func(q *gmref.Peer) { q.Suites = []uint16{suite}; q.OfferTicket = true; first = q }, &gmref.Script{Data: tlsk.PingPong(true)}, nil)
+				if !o1.Lib.Complete || first == nil || first.NewTicket == nil {
+					c.Violate("control-fails:ticket-issue", fmt.Sprintf("suite %04x: the honest first connection does not complete with a ticket: %s", suite, o1.Describe()), nil, nil)
+					return
+				}
+				ticket, master := first.NewTicket, first.Master
+				setup := func(q *gmref.Peer) {
+					q.Suites = h.suites
+					q.OfferTicket = true
+					if withTicket {
+						q.Ticket, q.ResumeMaster, q.ResumeSuite = ticket, master, suite
+					}
+				}
+				o := tlsk.RunLibVsRef(sc, false, tlsk.LibApp(false), gmref.Identity{}, 93, setup, &gmref.Script{Data: tlsk.PingPong(true)}, nil)
+				tag := fmt.Sprintf("server with a ticket issued for suite %04x; next ClientHello presents the ticket=%v and offers %s", suite, withTicket, h.name)
+				c.Add("executions", 2)
+				c.Add("transitions", 2)
+				c.DistinctS("states", tag)
+				c.Sample(tag)
+				verdict := refdev.MustAbort
+				if h.conformant {
+					verdict = refdev.MustComplete
+				}
+				r := refCfg{libIsClient: false, suite: suite}
+				judgeRef(c, r, tag, fmt.Sprintf("ticket=%v:hello offering %s", withTicket, h.name), o, verdict)
+				if o.Lib.Complete && len(h.suites) > 0 {
+					offered := false
+					for _, x := range h.suites {
+						offered = offered || x == o.Lib.Suite
+					}
+					if !offered {
+						c.Violate("selects-suite-not-offered", fmt.Sprintf("[%s] the server completed with suite %04x, which the ClientHello did not offer", tag, o.Lib.Suite), nil, tag)
+					}
+				}
+			}
+		}
+	}}
+}
+
 func refUnits() []harness.Unit {
 	var u []harness.Unit
+	u = append(u, refTicketHelloUnit(gmtls.GMTLS_ECC_SM4_CBC_SM3), refTicketHelloUnit(gmtls.GMTLS_ECC_SM4_GCM_SM3))
 	for _, lc := range []bool{true, false} {
 		for _, suite := range []uint16{gmtls.GMTLS_ECC_SM4_CBC_SM3, gmtls.GMTLS_ECC_SM4_GCM_SM3} {
 			for _, auth := range []bool{false, true} {
